@@ -1049,7 +1049,10 @@ Qed.
 (* non-vacuity *)
 Example never_propagates :
   let nv := fun id => Nat.eqb id 0 in
-  blockingN nv (Bin BWhenAll (Bin BStopWhen (LeafN 1) (Leaf 0)) JustDone) = BNever /\
+  blockingN nv (Bin BWhenAll JustDone (Bin BStopWhen (LeafN 1) (Leaf 0))) = BNever /\
+  (* a never-declaring child that is not the one started last no longer makes when_all never *)
+  blockingN nv (Bin BWhenAll (Bin BStopWhen (LeafN 1) (Leaf 0)) JustDone) = BMaybe /\
+  blockingN nv (Bin BStopWhen (Leaf 0) (LeafN 1)) = BMaybe /\
   blockingN nv (Bin BFinally (LeafN 1) (Un (UThen (FAdd 1)) (Leaf 0))) = BNever /\
   blockingN nv (Bin BLetV (Leaf 0) (Just 1)) = BNever /\
   blockingN nv (Bin BLetV (Just 1) (Leaf 0)) = BMaybe.
